@@ -43,6 +43,13 @@ def main():
     scratch = tempfile.mkdtemp(prefix='seed-%s-' % a.name, dir='/tmp')
     dst = os.path.join(scratch, 'repo')
     meta = {'property': a.prop, 'name': a.name, 'needs_to_manifest': a.needs, 'description': a.desc, 'ran': []}
+    old_meta = os.path.join(HERE if 'HERE' in globals() else os.path.dirname(os.path.dirname(os.path.abspath(__file__))), 'seeded', a.name, 'meta.json')
+    if os.path.exists(old_meta):
+        # a re-evaluation without --needs / --desc keeps what was recorded before
+        with open(old_meta) as f:
+            om = json.load(f)
+        meta['needs_to_manifest'] = a.needs or om.get('needs_to_manifest')
+        meta['description'] = a.desc or om.get('description')
     try:
         shutil.copytree('/repo', dst, ignore=shutil.ignore_patterns('.git', '__pycache__', '*.pyc', '.hypothesis', '.benchmarks'))
         orig = os.path.join(scratch, 'orig')
